@@ -14,8 +14,8 @@ EXTENDS TxWire
 \* ---------------------------------------------------------------- money
 \* satoshi per coin = 10^8; the cap is a number of whole coins per currency
 Satoshi(coins) == Trim(MulSmall(MulSmall(Limbs(coins, 2), 10000), 10000))
-MaxMoney(coin) == CASE coin = "BTC" -> Satoshi(21000000)
-                    [] coin = "GRS" -> Satoshi(105000000)
+MaxMoney(currency) == CASE currency = "BTC" -> Satoshi(21000000)
+                        [] currency = "GRS" -> Satoshi(105000000)
 
 Val(neg, mag) == [neg |-> neg, mag |-> mag]
 InRange(v, M) == ~v.neg /\ Leq(v.mag, M)
@@ -92,8 +92,9 @@ CInit(tx, c) == obj = tx /\ coin = c /\ calls = 0 /\ result = "none"
 \* check(): the verdict; the transaction is untouched
 Check == /\ result' \in (LET v == Verdict(obj, MaxMoney(coin)) IN IF v = "any" THEN {"accept", "reject"} ELSE {v})
          /\ calls' = calls + 1 /\ UNCHANGED <<obj, coin>>
-\* is_coinbase()
-AskCoinbase == /\ result' = (IF IsCoinbase(obj) THEN "yes" ELSE "no")
+\* is_coinbase(): a coinbase must be recognised (or it would be asked for signatures); what the method
+\* answers on other transactions the property does not say - a tolerated deviation, not idealised away
+AskCoinbase == /\ result' \in (IF IsCoinbase(obj) THEN {"yes"} ELSE {"yes", "no"})
                /\ calls' = calls + 1 /\ UNCHANGED <<obj, coin>>
 \* bad_solution_count(): a coinbase has no input to sign, so none is unsigned; otherwise the property says nothing
 CountBad == /\ result' \in (IF IsCoinbase(obj) THEN {"zero"} ELSE {"zero", "some"})
